@@ -658,6 +658,8 @@ def _scale_qn_1d(data: np.ndarray) -> float:
     """Calculate the Normalized Qn scale of an array."""
     norm = 0.4506241100243562  # np.sqrt(2) * stats.norm.ppf(5/8)
     n = len(data)
+    if n < 2:
+        return 0.0  # no pairs: no spread to measure
     h = n // 2 + 1
     k = h * (h - 1) // 2
     diffs = np.abs(data[:, None] - data)
